@@ -32,19 +32,21 @@
        (= (promises.timeout a) (promises.timeout b))
        (= (promises.idempotency_key_for_create a) (promises.idempotency_key_for_create b))
        (= (promises.tags a) (promises.tags b)) (= (promises.created_on a) (promises.created_on b))))
+(define-fun rely.promises.stays ((a Row.promises) (b Row.promises)) Bool
+  (=> (promises.present a) (and (promises.present b) (p.creation.eq a b))))
+(define-fun rely.promises.writeonce ((a Row.promises) (b Row.promises)) Bool (=> (p.completed a) (= b a)))
+(define-fun rely.promises.rowinv ((a Row.promises) (b Row.promises)) Bool (=> (promises.present b) (rowinv.promises b)))
 (define-fun rely.promises ((a Row.promises) (b Row.promises)) Bool
-  (and (=> (promises.present a) (and (promises.present b) (p.creation.eq a b)))
-       (=> (p.completed a) (= b a))
-       (=> (promises.present b) (rowinv.promises b))))
+  (and (rely.promises.stays a b) (rely.promises.writeonce a b) (rely.promises.rowinv a b)))
 
 ; ---- callbacks (C05): a registration is written once and only ever removed
 (define-fun rowinv.callbacks ((r Row.callbacks)) Bool
   (and (not (is-none (callbacks.id r))) (not (is-none (callbacks.promise_id r))) (not (is-none (callbacks.root_promise_id r)))
        (not (is-bnone (callbacks.recv r))) (not (is-bnone (callbacks.mesg r))) (not (= (callbacks.mesg r) (bsome json.null)))
        (not (is-inone (callbacks.timeout r)))))
-(define-fun rely.callbacks ((a Row.callbacks) (b Row.callbacks)) Bool
-  (and (=> (and (callbacks.present a) (callbacks.present b)) (= a b))
-       (=> (callbacks.present b) (rowinv.callbacks b))))
+(define-fun rely.callbacks.fixed ((a Row.callbacks) (b Row.callbacks)) Bool (=> (and (callbacks.present a) (callbacks.present b)) (= a b)))
+(define-fun rely.callbacks.rowinv ((a Row.callbacks) (b Row.callbacks)) Bool (=> (callbacks.present b) (rowinv.callbacks b)))
+(define-fun rely.callbacks ((a Row.callbacks) (b Row.callbacks)) Bool (and (rely.callbacks.fixed a b) (rely.callbacks.rowinv a b)))
 
 ; ---- schedules
 (define-fun rowinv.schedules ((r Row.schedules)) Bool
@@ -54,15 +56,15 @@
        (not (is-bnone (schedules.promise_param_headers r))) (not (is-bnone (schedules.promise_param_data r)))
        (not (is-bnone (schedules.promise_tags r))) (not (is-inone (schedules.next_run_time r)))
        (not (is-inone (schedules.created_on r)))))
-(define-fun rely.schedules ((a Row.schedules) (b Row.schedules)) Bool
-  (=> (schedules.present b) (rowinv.schedules b)))
+(define-fun rely.schedules.rowinv ((a Row.schedules) (b Row.schedules)) Bool (=> (schedules.present b) (rowinv.schedules b)))
+(define-fun rely.schedules ((a Row.schedules) (b Row.schedules)) Bool (rely.schedules.rowinv a b))
 
 ; ---- locks (C09)
 (define-fun rowinv.locks ((r Row.locks)) Bool
   (and (not (is-none (locks.resource_id r))) (not (is-none (locks.execution_id r))) (not (is-none (locks.process_id r)))
        (not (is-inone (locks.ttl r))) (not (is-inone (locks.expires_at r)))))
-(define-fun rely.locks ((a Row.locks) (b Row.locks)) Bool
-  (=> (locks.present b) (rowinv.locks b)))
+(define-fun rely.locks.rowinv ((a Row.locks) (b Row.locks)) Bool (=> (locks.present b) (rowinv.locks b)))
+(define-fun rely.locks ((a Row.locks) (b Row.locks)) Bool (rely.locks.rowinv a b))
 
 ; ---- tasks (C07): counters never decrease; finished tasks are frozen; a task that
 ; leaves the claimed state for init/enqueued does so with a larger counter; identity fields are fixed
@@ -82,12 +84,58 @@
   (and (= (tasks.id a) (tasks.id b)) (= (tasks.sort_id a) (tasks.sort_id b)) (= (tasks.root_promise_id a) (tasks.root_promise_id b))
        (= (tasks.recv a) (tasks.recv b)) (= (tasks.mesg a) (tasks.mesg b)) (= (tasks.timeout a) (tasks.timeout b))
        (= (tasks.created_on a) (tasks.created_on b))))
+(define-fun rely.tasks.stays ((a Row.tasks) (b Row.tasks)) Bool
+  (=> (tasks.present a) (and (tasks.present b) (t.identity.eq a b))))
+(define-fun rely.tasks.counter ((a Row.tasks) (b Row.tasks)) Bool
+  (=> (tasks.present a) (>= (ival (tasks.counter b)) (ival (tasks.counter a)))))
+(define-fun rely.tasks.finished ((a Row.tasks) (b Row.tasks)) Bool
+  (=> (t.finished a) (and (t.finished b) (= (tasks.state b) (tasks.state a)) (= (tasks.counter b) (tasks.counter a))
+                          (= (tasks.completed_on b) (tasks.completed_on a)))))
+(define-fun rely.tasks.fence ((a Row.tasks) (b Row.tasks)) Bool
+  (=> (and (tasks.present a) (= (tasks.state a) (isome 4)) (or (= (tasks.state b) (isome 1)) (= (tasks.state b) (isome 2))))
+      (> (ival (tasks.counter b)) (ival (tasks.counter a)))))
+(define-fun rely.tasks.rowinv ((a Row.tasks) (b Row.tasks)) Bool (=> (tasks.present b) (rowinv.tasks b)))
 (define-fun rely.tasks ((a Row.tasks) (b Row.tasks)) Bool
-  (and (=> (tasks.present a)
-           (and (tasks.present b) (t.identity.eq a b) (>= (ival (tasks.counter b)) (ival (tasks.counter a)))))
-       (=> (t.finished a) (and (t.finished b) (= (tasks.state b) (tasks.state a)) (= (tasks.counter b) (tasks.counter a))
-                               (= (tasks.completed_on b) (tasks.completed_on a))))
-       (=> (and (tasks.present a) (= (tasks.state a) (isome 4))
-                (or (= (tasks.state b) (isome 1)) (= (tasks.state b) (isome 2))))
-           (> (ival (tasks.counter b)) (ival (tasks.counter a))))
-       (=> (tasks.present b) (rowinv.tasks b))))
+  (and (rely.tasks.stays a b) (rely.tasks.counter a b) (rely.tasks.finished a b) (rely.tasks.fence a b) (rely.tasks.rowinv a b)))
+
+; ---- C05 cross-table step property, at an arbitrary registration key k:
+;   cb0/cb1  registration row at k before/after the transaction
+;   p0a/p1a  promise named by cb0 before/after;  p1b promise named by cb1 after
+;   t0/t1    task row at k before/after
+; Invariant: a registration only exists while its promise is pending.
+; Step: if the promise of an existing registration leaves pending in this transaction, the
+; registration is removed and a task with the registration's id, receiver, message, timeout
+; and root exists afterwards (initial state when it is new), all in this same transaction.
+(define-fun xinv.C05 ((cb Row.callbacks) (p Row.promises)) Bool (=> (callbacks.present cb) (p.pending p)))
+(define-fun xguar.C05 ((cb0 Row.callbacks) (cb1 Row.callbacks) (p0a Row.promises) (p1a Row.promises) (p1b Row.promises)
+                       (t0 Row.tasks) (t1 Row.tasks)) Bool
+  (=> (xinv.C05 cb0 p0a)
+      (and (xinv.C05 cb1 p1b)
+           (=> (and (callbacks.present cb0) (not (p.pending p1a)))
+               (and (not (callbacks.present cb1))
+                    (tasks.present t1)
+                    (=> (not (tasks.present t0))
+                        (and (= (tasks.id t1) (callbacks.id cb0)) (= (tasks.recv t1) (callbacks.recv cb0))
+                             (= (tasks.mesg t1) (callbacks.mesg cb0)) (= (tasks.timeout t1) (callbacks.timeout cb0))
+                             (= (tasks.root_promise_id t1) (callbacks.root_promise_id cb0))
+                             (= (tasks.state t1) (isome 1)) (= (tasks.counter t1) (isome 1)))))))))
+
+; ---- C08 cross-table step property: when a promise leaves pending, none of its tasks stays active.
+;   t0/t1 task at an arbitrary key, p0/p1 its root promise before/after
+(define-fun xguar.C08 ((t0 Row.tasks) (t1 Row.tasks) (p0 Row.promises) (p1 Row.promises)) Bool
+  (=> (and (task.active t0) (p.pending p0) (not (p.pending p1)) (promises.present p1))
+      (and (tasks.present t1) (= (tasks.state t1) (isome 8)))))
+
+; ---- ASSUMED (never proved) bounds on stored bookkeeping counters: fewer than 2^62 reclaims /
+; hand-off attempts of one task. They only serve to rule out machine-integer wrap-around of counter+1.
+(define-fun rowassume.tasks ((r Row.tasks)) Bool
+  (and (<= (ival (tasks.counter r)) 4611686018427387904) (<= 0 (ival (tasks.attempt r))) (<= (ival (tasks.attempt r)) 4611686018427387904)))
+
+; ---- C07 lease clause, per task update: an update that may take a CLAIMED task to a state other
+; than completed (re-init, enqueue, time-out) is only issued after the coroutine has observed that
+; very claim (same counter) with its lease or the task's timeout run out at the observation time.
+;   obs: the row the coroutine observed, tobs: clock at the observation, mask/cur/newstate: the update
+(define-fun xguar.C07.lease ((obs Row.tasks) (tobs Int) (mask Int) (cur Int) (newstate Int)) Bool
+  (=> (and (not (= (band mask 4) 0)) (not (= newstate 8)))
+      (and (tasks.present obs) (= (tasks.state obs) (isome 4)) (= (tasks.counter obs) (isome cur))
+           (or (<= (ival (tasks.expires_at obs)) tobs) (<= (ival (tasks.timeout obs)) tobs)))))
